@@ -11,7 +11,7 @@ use affinitree::pwl::node::NodeState;
 use ndarray::{Array1, Array2};
 use serde::{Deserialize, Serialize};
 
-use crate::common::{event, events_digest, events_reset, guarded, panic_site, Violation};
+use crate::common::{event, events_digest, events_reset, guarded, panic_site, step_crumb, Violation};
 use crate::exact::{width, Class, Row, Q};
 use crate::gen::{self, Knobs, SlotInfo};
 use crate::lit::*;
@@ -1142,6 +1142,26 @@ pub fn run_scenario(sc: &Scenario) -> RunResult {
     RunResult { scenario: sc.clone(), violations, stats: ex.stats, invalid, steps_done }
 }
 
+fn crumb(sc: &Scenario, step: usize) {
+    step_crumb(|| {
+        let rep = PwlReplay {
+            property: property_of(sc.mode, sc.mode == Mode::Fault, Clause::Structure).to_string(),
+            simulator: "pwlsim".into(),
+            seed: 0,
+            run_index: 0,
+            scenario: sc.clone(),
+            expected: Some(Violation {
+                property: property_of(sc.mode, sc.mode == Mode::Fault, Clause::Structure).to_string(),
+                class: "process_died".into(),
+                site: sc.history.get(step).map(|o| o.name()).unwrap_or_default(),
+                step,
+                detail: "the process aborted, overflowed its stack or hung while executing this step".into(),
+            }),
+        };
+        serde_json::to_string_pretty(&rep).unwrap()
+    });
+}
+
 fn arm_faults(ex: &mut Exec, sc: &Scenario) {
     ex.seam.borrow_mut().faults_armed = true;
     affinitree::verif_hooks::reset_lp_calls();
@@ -1153,15 +1173,15 @@ fn arm_faults(ex: &mut Exec, sc: &Scenario) {
 }
 
 /// One seeded run for C03..C06: knobs, pool, mode and every operation derive from `run_seed`.
-pub fn seeded_history_run(focus: &str, run_seed: u64) -> RunResult {
-    seeded_history_run_traced(focus, run_seed, false)
+pub fn seeded_history_run(focus: &str, run_seed: u64, deep: bool) -> RunResult {
+    seeded_history_run_traced(focus, run_seed, deep, false)
 }
 
-pub fn seeded_history_run_traced(focus: &str, run_seed: u64, print: bool) -> RunResult {
+pub fn seeded_history_run_traced(focus: &str, run_seed: u64, deep: bool, print: bool) -> RunResult {
     events_reset(print);
-    event(&format!("run_seed {run_seed} focus {focus}"));
+    event(&format!("run_seed {run_seed} focus {focus} deep {deep}"));
     let mut rng = Prng::new(run_seed);
-    let knobs = gen::gen_knobs(&mut rng, focus);
+    let knobs = gen::gen_knobs_depth(&mut rng, focus, deep);
     let mode = gen::gen_mode(&mut rng);
     let mut pool = Vec::new();
     for _ in 0..knobs.pool_size {
@@ -1198,6 +1218,7 @@ pub fn seeded_history_run_traced(focus: &str, run_seed: u64, print: bool) -> Run
         }
         let Some(op) = gen::gen_op(&mut rng, &knobs, &infos, false) else { break };
         sc.history.push(op.clone());
+        crumb(&sc, sc.history.len() - 1);
         let rep = ex.step(&op);
         steps_done += 1;
         if rep.invalid {
@@ -1279,6 +1300,7 @@ fn run_suffix(prefix_pool: &[AffTree<2>], prefix_models: &[ModelTree], sc: &Scen
         bump(&mut ex.stats.faults_configured, f.family(), 1);
     }
     let mut violations = Vec::new();
+    crumb(sc, sc.fault_from_step);
     for op in &sc.history[sc.fault_from_step..] {
         let rep = ex.step(op);
         violations.extend(rep.violations);
